@@ -61,32 +61,28 @@ class Ctx:
         open(beh, "w").close()
         defaults = {"cfg": cfg_json(cfg), "ops": ops or [], "gen": name}
         jobrec = {"job": name, "generators": [], "invariants": invariants}
-        for gi, g in enumerate(gens):
+        # generators run concurrently (each TLC is mostly JVM start-up); their output is appended in order
+        from concurrent.futures import ThreadPoolExecutor
+        import subprocess
+        from vlib import CHK
+
+        def run_gen(gi, g):
+            part = os.path.join(d, "part_%02d.ndjson" % gi)
             if "file" in g:
-                with open(g["file"]) as fi, open(beh, "a") as fo:
-                    n = 0
+                n = 0
+                with open(g["file"]) as fi, open(part, "w") as fo:
                     for line in fi:
                         rec = json.loads(line)
                         for k, v in defaults.items():
                             rec.setdefault(k, v)
                         fo.write(json.dumps(rec, separators=(",", ":")) + "\n")
                         n += 1
-                jobrec["generators"].append({"file": os.path.basename(g["file"]), "behaviours": n})
-                continue
+                return part, {"file": os.path.basename(g["file"]), "behaviours": n}, 0
             if "rust" in g:
-                import subprocess
-                from vlib import CHK
-                tmp = os.path.join(d, "rust_gen_%d.ndjson" % gi)
-                r = subprocess.run([CHK, "gen"] + [str(a) for a in g["rust"]] + [tmp], capture_output=True, text=True)
+                r = subprocess.run([CHK, "gen"] + [str(a) for a in g["rust"]] + [part], capture_output=True, text=True)
                 if r.returncode != 0:
                     raise ToolError("chk gen failed: " + r.stderr[-1000:])
-                with open(tmp) as fi, open(beh, "a") as fo:
-                    n = 0
-                    for line in fi:
-                        fo.write(line)
-                        n += 1
-                jobrec["generators"].append({"rust": g["rust"][0], "behaviours": n})
-                continue
+                return part, {"rust": g["rust"][0], "behaviours": count_lines(part)}, 0
             gcfg = dict(cfg, **g["cfg"]) if g.get("cfg") else cfg
             gdefaults = dict(defaults, cfg=cfg_json(gcfg)) if g.get("cfg") else defaults
             consts = {} if g.get("raw_consts") else dict(base_consts(gcfg, ops or [], name))
@@ -99,13 +95,22 @@ class Ctx:
             if g.get("view"):
                 body += "VIEW %s\n" % g["view"]
             gname = "G%d_%s" % (gi, g["base"])
-            n, states, secs = tlc_generate(d, gname, g["base"], consts, body, beh, defaults=gdefaults,
-                                           simulate=g.get("simulate"), seed=self.seed, append=True,
-                                           timeout=g.get("timeout", 1200), workers=g.get("workers"))
-            self.cov["generator_states"] += states
-            jobrec["generators"].append({"spec": g["base"], "behaviours": n, "tlc_states": states,
-                                         "secs": round(secs, 1), "mode": "simulate" if g.get("simulate") else "exhaustive",
-                                         "bounds": {k: v for k, v in g.get("consts", {}).items() if isinstance(v, (int, str))}})
+            n, states, secs = tlc_generate(d, gname, g["base"], consts, body, part, defaults=gdefaults,
+                                           simulate=g.get("simulate"), seed=self.seed, append=False,
+                                           timeout=g.get("timeout", 1800), workers=g.get("workers") or 4)
+            return part, {"spec": g["base"], "behaviours": n, "tlc_states": states, "secs": round(secs, 1),
+                          "mode": "simulate" if g.get("simulate") else "exhaustive",
+                          "bounds": {k: v for k, v in g.get("consts", {}).items() if isinstance(v, (int, str))}}, states
+
+        with ThreadPoolExecutor(max_workers=4) as ex:
+            results = list(ex.map(lambda t: run_gen(*t), list(enumerate(gens))))
+        with open(beh, "w") as fo:
+            for (part, rec, states) in results:
+                with open(part) as fi:
+                    shutil.copyfileobj(fi, fo)
+                os.unlink(part)
+                self.cov["generator_states"] += states
+                jobrec["generators"].append(rec)
         if self.limit:
             # selftest mode: a spread sample of the generated behaviours
             lines = open(beh).read().splitlines()
